@@ -719,6 +719,16 @@ example (a b : Service Bool) (hwa : a.WellFormed) (hwb : b.WellFormed) (ha : Acc
     serverProtocolHash env a = serverProtocolHash env b ↔ SameWire a b :=
   C39_hash_identity env lawful collisionFree a b hwa hwb ha hb
 
+/-- the hypotheses of `C39_sensitive_names` / `C39_faithful` are satisfiable (and the latter yields a description of `svc`) -/
+example : NamesOK svc := by
+  refine ⟨by decide, ?_⟩
+  intro m hm
+  simp only [svc, List.mem_cons, List.not_mem_nil, or_false] at hm
+  rcases hm with rfl | rfl <;> decide
+
+example (hacc : Accepted env svc) : ∃ d, describe env svc = .ok d ∧ Describes d svc :=
+  C39_faithful env lawful svc (by unfold Service.WellFormed; decide) hacc
+
 /-- a retype of one parameter schema is wire relevant … -/
 def svcRetyped : Service Bool := { svc with methods := svc.methods.map fun m => if m.name = "add".toList then { m with params := false } else m }
 
